@@ -116,7 +116,18 @@ class C12(PropBase):
             for p in sc['params']:
                 p['blocking_send'] = True
             sc['threaded'] = True
-            if rng.random() < 0.4:
+            r_var = rng.random()
+            if r_var < 0.25:
+                # stop() variant: the peer only listens, N_Bs is far away: callers block in send() on their multi-frame payloads;
+                # stop() must complete the active AND the queued requests with failure: every blocked send() raises BlockingSendFailure
+                # within moments (nobody stays blocked, nobody gets BlockingSendTimeout - send_timeout is 20 s)
+                sc['abort_variant'] = True
+                sc['stop_midflight'] = True
+                sc['params'][1]['listen_mode'] = True
+                sc['senders'][1] = []
+                # one payload per caller thread (a send() issued AFTER stop() would legitimately wait for its send_timeout)
+                sc['senders'][0] = [[(rid_, bytes([0, t_, k_]) + bytes(97)) for k_, (rid_, _p) in enumerate(items[:1])] for t_, items in enumerate(sc['senders'][0])]
+            elif r_var < 0.55:
                 # abort variant: the peer only listens (never answers a First Frame), N_Bs = 100 ms: every multi-frame blocking send() must
                 # raise BlockingSendFailure (not BlockingSendTimeout: send_timeout is 20 s), every single-frame one must return normally
                 sc['abort_variant'] = True
@@ -150,6 +161,10 @@ class C12(PropBase):
                         nfr = len(ref.segment(bytes(payload), prefix=pre, txdl=cfg.get('tx_data_length', 8), minlen=cfg.get('tx_data_min_length'),
                                               padding=cfg.get('tx_padding')))
                         got = by_id.get(rid, by_id.get(str(rid)))
+                        if sc.get('stop_midflight'):
+                            if nfr > 1 and got != 'BlockingSendFailure':
+                                out.append(('blocking', 'stop() while send() was blocked on a multi-frame payload: the caller got %s, expected BlockingSendFailure' % got))
+                            continue
                         if nfr == 1 and got is not None:
                             out.append(('blocking', 'single-frame blocking send() raised %s although the frame was transmitted' % got))
                         if nfr > 1 and got != 'BlockingSendFailure':
